@@ -75,11 +75,15 @@ func H_C01_laws() {
 		verif.Assert(e.Merge(ca, polOpts(pol)...) == nil, "C01/law/merge into empty accepted")
 		got, err := unpackTree(e)
 		verif.Assert(err == nil && eqTree(got, a), "C01/law/empty.Merge(A)=A/"+polName[pol])
-	case 2: // A.Merge(A) == A under default and replace
-		verif.Assume(pol == polDefault || pol == polReplace || pol == polArrReplace)
+	case 2: // A.Merge(A): identity under default and replace, doubled lists under append / prepend
 		verif.Assert(ca.Merge(ca, polOpts(pol)...) == nil, "C01/law/self merge accepted")
 		got, err := unpackTree(ca)
-		verif.Assert(err == nil && eqTree(got, a), "C01/law/A.Merge(A)=A/"+polName[pol])
+		if pol == polDefault || pol == polReplace || pol == polArrReplace {
+			verif.Assert(err == nil && eqTree(got, a), "C01/law/A.Merge(A)=A/"+polName[pol])
+		} else {
+			// the operands of a self merge are A and A: the reference merge of the two
+			verif.Assert(err == nil && eqTree(got, mergeVal(constPol(pol), nil, a, a)), "C01/law/A.Merge(A) combines A with A/"+polName[pol])
+		}
 	case 3: // append / prepend: length is the sum, order preserved
 		n := verif.Choice("la", 3)
 		m := verif.Choice("lb", 3)
